@@ -362,12 +362,12 @@ struct Srv : ISrv
       try
       {
         ec = srv.accept_connections(0);
-        if (ec != ASIO::error::address_in_use || attempt >= 200)
+        if (ec != ASIO::error::address_in_use || attempt >= 1200)
           break;
       }
       catch (std::system_error const& e)
       {
-        if (e.code() != ASIO::error::address_in_use || attempt >= 200)
+        if (e.code() != ASIO::error::address_in_use || attempt >= 1200)
           throw;
       }
       srv.close();
